@@ -16,6 +16,8 @@
 (*  Reserved : the intended deviation of pyscript - unexpected keywords with these names are *)
 (*          dropped when the callee has no **kwargs and does not declare them (parameters   *)
 (*          may themselves be named like reserved keywords).  Reserved = {} is Python.      *)
+(*  val   : a valuation - which VALUE is written at which source (default expression of a     *)
+(*          parameter, i-th positional value, value of a keyword); see Values below.         *)
 (*  flags : named deviations of the pinned code (known findings); {} is the statement.       *)
 (*     "posonly-kw"  a keyword naming a positional-only parameter raises TypeError even      *)
 (*                   though **kwargs should absorb it                                       *)
